@@ -206,6 +206,35 @@ Proof.
         inversion Hrun; subst. eapply Hgo; try reflexivity; eassumption.
 Qed.
 
+(* ------------------------------------------------------------------ rows written as given *)
+Lemma fi_app_explicit : forall w tr,
+  fresh_increasing tr -> (forall x, In x w -> snd x = false) -> fresh_increasing (tr ++ w).
+Proof.
+  induction w as [|[v b] w IH]; intros tr F H.
+  - rewrite app_nil_r. exact F.
+  - change (tr ++ (v, b) :: w) with (tr ++ [(v, b)] ++ w). rewrite app_assoc. apply IH.
+    + apply fi_snoc; [exact F|]. intros Hb. specialize (H (v, b) (or_introl eq_refl)). cbn in H. congruence.
+    + intros x Hx. apply H. right. exact Hx.
+Qed.
+
+Lemma bulk_written_explicit : forall rows ext x, In x (bulk_written rows ext) -> snd x = false.
+Proof.
+  induction rows as [|r t IH]; intros ext x Hin; [destruct Hin|].
+  cbn [bulk_written] in Hin. destruct ext as [[|k]|]; [destruct Hin| |]; destruct r as [|v].
+  - exact (IH _ _ Hin).
+  - destruct Hin as [<-|Hin]; [reflexivity|exact (IH _ _ Hin)].
+  - exact (IH _ _ Hin).
+  - destruct Hin as [<-|Hin]; [reflexivity|exact (IH _ _ Hin)].
+Qed.
+
+Lemma existsb_gt_false : forall (w : list (Z * bool)) ai,
+  existsb (fun x => fst x >? ai) w = false -> forall x, In x w -> fst x <= ai.
+Proof.
+  intros w ai Hex x Hx. destruct (fst x >? ai) eqn:Hg; [|lia].
+  assert (existsb (fun x0 : Z * bool => fst x0 >? ai) w = true) by (apply existsb_exists; exists x; split; assumption).
+  congruence.
+Qed.
+
 (* ------------------------------------------------------------------ one statement *)
 Definition le_all (m : Z) (tr : list (Z * bool)) : Prop := forall x, In x tr -> fst x <= m.
 Definition gens_pos (tr : list (Z * bool)) : Prop :=
@@ -255,10 +284,21 @@ Proof.
   induction h as [|o t IH]; intros ai tr0 aif tr Hai Hle Hfi Hgp Hcl Hrun.
   - cbn [run] in Hrun. inversion Hrun; subst. rewrite app_nil_r. split; [lia|]. split; [assumption|split; assumption].
   - rewrite run_cons in Hrun.
-    destruct o as [rows ext| | | | |];
+    destruct o as [rows ext|rows ext| | | | |];
       try (cbn [step known_class_from] in Hrun, Hcl;
            destruct (run ai t) as [aif' tr'] eqn:Hrun'; inversion Hrun; subst;
            cbn [app]; eapply IH; eassumption).
+    2: { (* Bulk: explicit values at or below the counter *)
+      cbn [step known_class_from] in Hrun, Hcl.
+      destruct (existsb (fun x : Z * bool => fst x >? ai) (bulk_written rows ext)) eqn:Hex; [discriminate Hcl|].
+      destruct (run ai t) as [aif' tr'] eqn:Hrun'. inversion Hrun; subst.
+      destruct (IH ai (tr0 ++ bulk_written rows ext) aif tr') as (R1 & R2 & R3 & R4); try assumption.
+      - intros x Hx. apply in_app_or in Hx. destruct Hx as [Hx|Hx]; [exact (Hle x Hx)|].
+        exact (existsb_gt_false _ _ Hex x Hx).
+      - apply fi_app_explicit; [exact Hfi|]. intros x Hx. exact (bulk_written_explicit _ _ x Hx).
+      - intros x Hx Hs. apply in_app_or in Hx. destruct Hx as [Hx|Hx]; [exact (Hgp x Hx Hs)|].
+        rewrite (bulk_written_explicit _ _ x Hx) in Hs. discriminate Hs.
+      - rewrite <- app_assoc in R2, R3, R4. split; [lia|]. split; [assumption|split; assumption]. }
     cbn [known_class_from] in Hcl.
     destruct (Z.eqb_spec (stmt_class ai rows ext) 0) as [Hc|Hc]; [|congruence].
     cbn [step] in Hrun, Hcl.
@@ -307,8 +347,9 @@ Qed.
 Lemma run_filter_insert : forall h ai, run ai h = run ai (filter is_insert h).
 Proof.
   induction h as [|o t IH]; intros ai; [reflexivity|].
-  destruct o as [rows ext| | | | |]; cbn [filter is_insert]; rewrite ?run_cons; cbn [step].
+  destruct o as [rows ext|rows ext| | | | |]; cbn [filter is_insert]; rewrite ?run_cons; cbn [step].
   - destruct (insert_stmt ai rows ext) as [[ai' w] ok]. rewrite IH. reflexivity.
+  - rewrite IH. reflexivity.
   - rewrite IH. destruct (run ai (filter is_insert t)); reflexivity.
   - rewrite IH. destruct (run ai (filter is_insert t)); reflexivity.
   - rewrite IH. destruct (run ai (filter is_insert t)); reflexivity.
@@ -374,6 +415,8 @@ Definition w_class2 : list op := [Insert [RNull; RNull] (Some 1%nat); Insert [RN
 Definition w_class3 : list op :=
   [Insert [RNull] None; Insert [RInt 9223372036854775807] None; Insert [RNull] None].
 
+Definition w_class4 : list op := [Insert [RNull] None; Bulk [RInt 3] None; Insert [RNull; RNull] None].
+
 Lemma refuted_by_chk : forall h, fresh_increasing_chk (trace h) = false -> ~ fresh_increasing (trace h).
 Proof. intros h Hc Hf. apply fresh_increasing_chk_correct_l in Hf. congruence. Qed.
 
@@ -390,6 +433,10 @@ Lemma autoinc_refuted_i64_wrap_l :
     trace h = [(1, true); (9223372036854775807, false); (-9223372036854775808, true)] /\
     ~ fresh_increasing (trace h).
 Proof. exists w_class3. split; [vm_compute; reflexivity|]. split; [vm_compute; reflexivity|]. apply refuted_by_chk. vm_compute. reflexivity. Qed.
+
+Lemma autoinc_refuted_bulk_explicit_l :
+  exists h, known_class h = 4 /\ trace h = [(1, true); (3, false); (2, true); (3, true)] /\ ~ fresh_increasing (trace h).
+Proof. exists w_class4. split; [vm_compute; reflexivity|]. split; [vm_compute; reflexivity|]. apply refuted_by_chk. vm_compute. reflexivity. Qed.
 
 (* ------------------------------------------------------------------ one row per statement:
    only the i64 wrap remains *)
@@ -423,20 +470,22 @@ Qed.
 
 Lemma known_class_single : forall h ai,
   (forall rows ext, In (Insert rows ext) h -> (length rows <= 1)%nat) ->
-  known_class_from ai h = 0 \/ known_class_from ai h = 3.
+  known_class_from ai h = 0 \/ known_class_from ai h = 3 \/ known_class_from ai h = 4.
 Proof.
   induction h as [|o t IH]; intros ai Hs; [left; reflexivity|].
   assert (Ht : forall rows ext, In (Insert rows ext) t -> (length rows <= 1)%nat)
     by (intros rows ext Hin; apply (Hs rows ext); right; exact Hin).
-  destruct o as [rows ext| | | | |]; cbn [known_class_from]; try (apply IH; exact Ht).
-  destruct (stmt_class_single ai rows ext) as [H0|H3]; [apply (Hs rows ext); left; reflexivity| |].
-  - rewrite H0. change (0 =? 0) with true. cbv iota. apply IH; exact Ht.
-  - rewrite H3. right. reflexivity.
+  destruct o as [rows ext|rows ext| | | | |]; cbn [known_class_from]; try (apply IH; exact Ht).
+  - destruct (stmt_class_single ai rows ext) as [H0|H3]; [apply (Hs rows ext); left; reflexivity| |].
+    + rewrite H0. change (0 =? 0) with true. cbv iota. apply IH; exact Ht.
+    + rewrite H3. right. left. reflexivity.
+  - destruct (existsb (fun x : Z * bool => fst x >? ai) (bulk_written rows ext)); [right; right; reflexivity|].
+    apply IH; exact Ht.
 Qed.
 
 Lemma autoinc_single_row_statements_l : forall h,
-  single_row h -> known_class h <> 3 -> fresh_increasing (trace h).
+  single_row h -> known_class h <> 3 -> known_class h <> 4 -> fresh_increasing (trace h).
 Proof.
-  intros h Hs H3. apply autoinc_fresh_increasing_l.
-  destruct (known_class_single h 0 Hs) as [H|H]; [exact H|]. unfold known_class in H3. congruence.
+  intros h Hs H3 H4. apply autoinc_fresh_increasing_l.
+  destruct (known_class_single h 0 Hs) as [H|[H|H]]; [exact H| |]; unfold known_class in H3, H4; congruence.
 Qed.
